@@ -1017,6 +1017,88 @@ fn gen_item(rng: &mut Rng, hist: &mut Hist) -> String {
     }
 }
 
+/// `C10.emit`: the literal inside a tiny function, compiled to HLSL; observation = the emitted statement
+pub fn run_emit(ty: &str, lit: &str) -> (String, String) {
+    let src = if ty == "-" {
+        format!("void f() {{ {}; }}\n", lit)
+    } else {
+        format!("void f(out {} r) {{ r = {}; }}\n", ty, lit)
+    };
+    let mut inc = MemFiles(vec![("main.rssl".to_string(), src)]);
+    let r = guard(|| {
+        rssl::compile(
+            rssl::CompileArgs::new("main.rssl", &mut inc, rssl::Target::HlslForDirectX).no_pipeline_mode(),
+        )
+    });
+    match r {
+        Err(p) => (format!("!panic {}", p), format!("FAIL:panic {}", p)),
+        Ok(Err(e)) => {
+            let msg = format!("{}", e);
+            // "or is rejected if it does not fit in 64 bits": a rejection for size must be justified
+            let orc = if msg.contains("integer literal is too large") {
+                match ref_numeric(lit.as_bytes()) {
+                    RefNum::Int { value, .. } if value.to_u64().is_some() => {
+                        format!("FAIL:emit integer literal {} fits in 64 bits but was rejected as too large", lit)
+                    }
+                    _ => "ok".to_string(),
+                }
+            } else {
+                "SKIP:rejected by the front end".to_string()
+            };
+            (format!("!error {}", one_line(&msg).chars().take(160).collect::<String>()), orc)
+        }
+        Ok(Ok(ps)) => {
+            let text: String = ps.iter().map(|p| String::from_utf8_lossy(&p.data).to_string()).collect();
+            let stmt = text
+                .lines()
+                .find(|l| l.trim_start().starts_with("r = ") || (ty == "-" && l.starts_with("    ")))
+                .map(|l| l.trim().to_string())
+                .unwrap_or_else(|| one_line(&text));
+            let printed = stmt.trim_start_matches("r = ").trim_end_matches(';').to_string();
+            (stmt, emit_oracle(lit, &printed))
+        }
+    }
+}
+
+/// "that value appears unchanged in the output": the emitted literal, read by the same reference grammar,
+/// must have the kind and the value of the source literal
+fn emit_oracle(lit: &str, printed: &str) -> String {
+    let a = ref_numeric(lit.as_bytes());
+    let b = ref_numeric(printed.as_bytes());
+    match (&a, &b) {
+        (RefNum::NotNumeric, _) => "SKIP:source text is not one numeric literal".into(),
+        (RefNum::Int { kind: k1, value: v1 }, RefNum::Int { kind: k2, value: v2 }) => {
+            if k1 != k2 {
+                format!("FAIL:emit int literal {} printed as {} (kind {} became {})", lit, printed, k1, k2)
+            } else if v1 != v2 {
+                format!("FAIL:emit {} literal {} printed as {}", k1, lit, printed)
+            } else {
+                "ok".into()
+            }
+        }
+        (RefNum::Float { kind: k1, bits64: b1 }, RefNum::Float { kind: k2, bits64: b2 }) => {
+            let narrow = |k: &str, b: u64| if k == "Float16" || k == "Float32" { ref_narrow32(b) as u64 } else { b };
+            if k1 != k2 {
+                format!("FAIL:emit float literal {} printed as {} (kind {} became {})", lit, printed, k1, k2)
+            } else if narrow(k1, *b1) != narrow(k2, *b2) {
+                format!(
+                    "FAIL:emit {} literal {} ({:x}) printed as {} ({:x})",
+                    k1, lit, narrow(k1, *b1), printed, narrow(k2, *b2)
+                )
+            } else {
+                "ok".into()
+            }
+        }
+        (RefNum::Float { kind, .. }, RefNum::Int { .. }) => {
+            format!("FAIL:emit {} literal {} printed as integer literal {}", kind, lit, printed)
+        }
+        (RefNum::Int { kind, .. }, RefNum::Float { .. }) => {
+            format!("FAIL:emit {} literal {} printed as float literal {}", kind, lit, printed)
+        }
+        (_, RefNum::NotNumeric) => format!("FAIL:emit literal {} printed as {} which is not a numeric literal", lit, printed),
+    }
+}
+
 fn emit(text: &str, fl: &Flags, out: &mut Out, hist: &mut Hist) {
     let (obs, oracle) = run_lex(text, fl, hist);
     out.case(
@@ -1046,6 +1128,11 @@ fn run_inner(args: &Args, out: &mut Out) {
     if let Some(lines) = args.request_lines() {
         for line in lines {
             let f: Vec<&str> = line.split('\t').collect();
+            if f.len() == 3 && f[0] == "C10.emit" {
+                let (obs, orc) = run_emit(f[1], f[2]);
+                out.case(&line, &obs, &orc);
+                continue;
+            }
             if f.len() == 3 && f[0] == "C10.lex" {
                 let (Some(fl), Some(bytes)) = (parse_flags(f[1]), unhex(f[2])) else {
                     out.case(&line, "", "SKIP:bad request");
@@ -1119,5 +1206,21 @@ fn run_inner(args: &Args, out: &mut Out) {
         emit(&s, &Flags { trail: rng.chance(1, 2), inc: false, base: 0 }, out, &mut hist);
         texts += 1;
     }
-    out.stat(&format!("{{\"texts\":{},\"hist\":{}}}", texts, hist.json()));
+    // (4) literals through the whole compiler: the value must appear unchanged in the emitted HLSL
+    //     (suffixes l / ul are left out: 64-bit integer constants are `unimplemented!` in ir_types.rs)
+    let n_emit = if args.thorough() { 40_000 } else { 1_500 };
+    let n_emit = args.n.map(|n| n / 8).unwrap_or(n_emit);
+    let mut emitted = 0u64;
+    while emitted < n_emit {
+        let lit = if emitted % 2 == 0 { gen_int(&mut rng, &mut hist) } else { gen_float(&mut rng, &mut hist) };
+        let low = lit.to_ascii_lowercase();
+        if !low.starts_with("0x") && (low.ends_with('l') && !low.contains('.') && !low.contains('e')) || low.ends_with("ul") || low.ends_with("lu") || (low.starts_with("0x") && low.ends_with('l')) {
+            continue;
+        }
+        emitted += 1;
+        let (obs, orc) = run_emit("-", &lit);
+        hist.add(if orc.starts_with("SKIP") { "emit.rejected" } else { "emit.compiled" });
+        out.case(&format!("C10.emit\t-\t{}", lit), &obs, &orc);
+    }
+    out.stat(&format!("{{\"texts\":{},\"emitted\":{},\"hist\":{}}}", texts, emitted, hist.json()));
 }
